@@ -233,11 +233,19 @@ def run_case(case):
             if G.number_of_edges() == 0 or 0 in Pk:
                 bump(res, 'entry:' + name)          # isolated nodes / no edges: outside the domain of the fixed-point relations (0**-1)
                 return res
+            deterministic = True                # fixed-point relations: the same arguments give the same number, whatever was computed before
+            if case['seed'] % 2:
+                # just above the epidemic threshold <k>/<k^2-k>, where the fixed-point iteration is slow
+                k1 = sum(k * v for k, v in Pk.items())
+                k2 = sum(k * (k - 1) * v for k, v in Pk.items())
+                if k2 > 0 and 0 < 1.04 * k1 / k2 < 1:
+                    pp = 1.04 * k1 / k2
+                    bump(res, 'final_size_calls_just_above_threshold')
             if name == 'Epi_Prob_discrete':
                 args = [Pk, pp]
             elif name == 'Attack_rate_discrete':
                 args = [Pk, pp]
-                kw = {'rho': 0.05}
+                kw = {'rho': 0.05} if case['seed'] % 4 < 2 else {}
             elif name == 'Attack_rate_cts_time':
                 args = [Pk, tt, gg]
                 kw = {'rho': 0.05}
